@@ -79,14 +79,25 @@ ORACLE_RATERS = {}
 
 
 def oracle_rater(regressor, training_set, names, lda, ts_key):
-    from nanite.rate import get_rater
+    """standalone rater built WITHOUT nanite.rate.get_rater (so that a cache
+    or shortcut inside get_rater cannot leak into the oracle)"""
+    from nanite.rate.rater import IndentationRater, \
+        get_available_training_sets
+    from nanite.rate.regressors import reg_dict
     key = (regressor, ts_key, tuple(names) if names else None, lda)
     if key not in ORACLE_RATERS:
-        ORACLE_RATERS[key] = get_rater(regressor=regressor,
-                                       training_set=copy.deepcopy(training_set)
-                                       if isinstance(training_set, tuple)
-                                       else training_set,
-                                       names=names, lda=lda)
+        if isinstance(training_set, tuple):
+            ts = (training_set[0].copy(), training_set[1].copy())
+        else:
+            if training_set in get_available_training_sets():
+                path = IndentationRater.get_training_set_path(training_set)
+            else:
+                path = training_set
+            ts = IndentationRater.load_training_set(path=path, names=names)
+        reg_cl, kw = reg_dict[regressor]
+        ORACLE_RATERS[key] = IndentationRater(regressor=reg_cl(**dict(kw)),
+                                              training_set=ts, names=names,
+                                              lda=lda)
     return ORACLE_RATERS[key]
 
 
@@ -358,6 +369,57 @@ def one_curve(rec, rng, cid, tsets, xproc):
                 "state": state, "configs": hist}, limit=2)
 
 
+def crosstalk(rec, rng, cid, tsets):
+    """configurations that differ in one component, requested one after the
+    other on FRESH curve objects in this process: a rating must not depend on
+    which configurations were requested before (shared caches)"""
+    import itertools
+    from nanite.rate.features import IndentationFeatures as IF
+    spec = fitlab.draw_curve_spec(rng, models=["hertz_para"], npts=(700,),
+                                  noise_snr=(100,), with_tip=True)
+
+    def fresh():
+        i = fitlab.build_curve(spec)[0]
+        i.fit_model(model_key="hertz_para")
+        return i
+    reg = REGS[int(rng.integers(7))]
+    names = [None, ["feat_con_apr_sum", "feat_con_idt_sum",
+                    "feat_con_bln_slope", "feat_bin_size"]][
+        int(rng.integers(2))]
+    orders = list(itertools.permutations([None, False, True]))
+    order = orders[int(rng.integers(len(orders)))]
+    seq = [(reg, "zef18", names, lda) for lda in order]
+    # the same again with the directory copy, and with another regressor
+    seq += [(reg, "dir-copy", names, order[0]),
+            (REGS[int(rng.integers(7))], "zef18", names, order[1]),
+            (reg, "zef18", None if names else ["feat_con_apr_sum",
+                                               "feat_bin_size"], order[0])]
+    hist = []
+    for (rg, tsname, nm, lda) in seq:
+        ts_val, ts_key = tsets[tsname]
+        hist.append([rg, tsname, nm, lda])
+        case = {"id": cid, "kind": "crosstalk", "sequence": list(hist)}
+        idnt = fresh()
+        try:
+            rt = idnt.rate_quality(regressor=rg, training_set=ts_val,
+                                   names=nm, lda=lda)
+        except BaseException as e:  # noqa
+            rec.violation("raises/crosstalk/" + type(e).__name__,
+                          "rate_quality raised %s" % str(e)[:80], case)
+            continue
+        orat = oracle_rater(rg, ts_val, nm, lda, ts_key)
+        want = orat.rate(samples=np.atleast_2d(
+            IF.compute_features(idnt, names=orat.names)))[0]
+        rec.evaluated(dg=("crosstalk", hist))
+        rec.event("ratings compared with the standalone rater")
+        rec.event("cross-configuration sequence ratings")
+        rec.check(rt == want, "differs-from-standalone-rater/after-other-"
+                  "configurations",
+                  "fresh curve rated %r with %s, standalone rater %r; "
+                  "configurations requested before in this process: %s"
+                  % (rt, hist[-1], want, hist[:-1]), case)
+
+
 def child_main(path):
     """recompute the ratings listed in `path` (JSON) in this process"""
     import warnings
@@ -419,6 +481,8 @@ def run_shard(rec, tier, seed, shard, nshards):
         for i in range(N_CASES[tier]):
             one_curve(rec, core.case_rng(seed, ID, shard, i), [shard, i],
                       tsets, xproc)
+        crosstalk(rec, core.case_rng(seed, ID, shard, 10 ** 6 + 1),
+                  [shard, 10 ** 6 + 1], tsets)
         if xproc is not None:
             cross_process(rec, xproc, seed)
     finally:
@@ -430,7 +494,11 @@ def replay(rec, case):
     scratch = tempfile.mkdtemp(prefix="nv_c09_")
     try:
         tsets = make_training_sets(core.case_rng(0, ID, 0, 10 ** 6), scratch)
-        one_curve(rec, core.case_rng(case["seed"], ID, cid[0], cid[1]), cid,
-                  tsets, None)
+        if case["case"].get("kind") == "crosstalk":
+            crosstalk(rec, core.case_rng(case["seed"], ID, cid[0], cid[1]),
+                      cid, tsets)
+        else:
+            one_curve(rec, core.case_rng(case["seed"], ID, cid[0], cid[1]),
+                      cid, tsets, None)
     finally:
         shutil.rmtree(scratch, ignore_errors=True)
